@@ -31,6 +31,26 @@ def _rules_for(rng, doc, n, tier):
         if rules and rng.random() < 0.15:
             rules.append(rng.choice(rules))  # duplicated rule term
             continue
+        if rules and rng.random() < 0.2:
+            # a sibling rule whose path differs from an earlier one only in the *type* of a
+            # primitive part (1 / 1.0 / True / "1"): equal-looking paths that select differently
+            base = rng.choice(rules)
+            prims = [i for i, p in enumerate(base["path"]["parts"]) if p["p"] == "prim" and type(p["v"]) in (int, float, bool, str)]
+            if prims:
+                i = rng.choice(prims)
+                v = base["path"]["parts"][i]["v"]
+                if type(v) is bool:
+                    alts = [int(v), float(v)]
+                elif type(v) is int:
+                    alts = [float(v), str(v)] + ([bool(v)] if v in (0, 1) else [])
+                elif type(v) is float:
+                    alts = [int(v)] if v == int(v) else [str(v)]
+                else:
+                    alts = [int(v)] if v.lstrip("-").isdigit() else [v + " "]
+                parts = list(base["path"]["parts"])
+                parts[i] = {"p": "prim", "v": rng.choice(alts)}
+                rules.append({"path": dict(base["path"], parts=parts), "cond": base["cond"]})
+                continue
         p = G.path_for(rng, doc, maxlen=rng.choice([0, 1, 1, 2, 2, 3, 4]), cond_depth=rng.choice([0, 1]),
                        prim_p=rng.choice([0.3, 0.6, 0.9]), miss_p=0.2)
         sel = M.walk(p, doc)
